@@ -3,6 +3,8 @@
 and (re)generate /verif/seeded/<prop>-<m>/ {patch.diff, demo.diff, meta.json}.
 usage: matrix.py [--from-mut] [Cxx ...]"""
 import json, os, re, subprocess, sys, glob, shutil
+REPO = os.environ.get("MX_REPO", "/repo")
+VERIF = os.environ.get("MX_VERIF", "/verif")
 REL = {
  "C01": ["C01","C07","C05"], "C02": ["C02","C16","C11"], "C03": ["C03","C07","C13"], "C04": ["C04","C13","C03"],
  "C05": ["C05","C01"], "C06": ["C06","C05"], "C07": ["C07","C01","C03"], "C08": ["C08","C09"], "C09": ["C09","C08"],
@@ -19,7 +21,7 @@ val = {}
 for l in open("/tmp/mutval/results.jsonl"):
     d = json.loads(l); val[(d["prop"], d["mutant"])] = d
 props = [a for a in sys.argv[1:] if a.startswith("C")] or sorted(REL)
-head = sh("git -C /repo rev-parse --short HEAD")[1].strip()
+head = sh(f"git -C {REPO} rev-parse --short HEAD")[1].strip()
 for prop in props:
     for patch in sorted(glob.glob(f"/tmp/mut/{prop}/_mutants/m?.patch.diff")):
         m = os.path.basename(patch).split(".")[0]
@@ -30,20 +32,20 @@ for prop in props:
             print(prop, m, "skipped (not validated)"); continue
         base = patch[:-len(".patch.diff")]
         meta_in = json.load(open(base + ".meta.json"))
-        rc, out = sh(f"git -C /repo status --porcelain --untracked-files=no")
+        rc, out = sh(f"git -C {REPO} status --porcelain --untracked-files=no")
         if out.strip(): print("repo dirty, abort"); sys.exit(2)
-        rc, out = sh(f"git apply --3way {patch} || git apply {patch}", cwd="/repo")
-        sh("git reset -q", cwd="/repo")
+        rc, out = sh(f"git apply --3way {patch} || git apply {patch}", cwd=REPO)
+        sh("git reset -q", cwd=REPO)
         if rc != 0:
-            sh("git reset -q --hard HEAD", cwd="/repo"); print(prop, m, "apply failed"); continue
+            sh("git reset -q --hard HEAD", cwd=REPO); print(prop, m, "apply failed"); continue
         results = {}
         for chk in REL[prop]:
-            rc, out = sh(f"bin/check {chk} quick", cwd="/verif", timeout=1500)
+            rc, out = sh(f"bin/check {chk} quick", cwd=VERIF, timeout=1500)
             summ = re.findall(rf"^{chk} quick: (.*)$", out, re.M)
             viol = re.findall(r"^VIOLATION.*\n\s+(.*)$", out, re.M)
             results[chk] = {"exit": rc, "summary": summ[-1] if summ else "", "first_violation": (viol[0][:300] if viol else "")}
             print(prop, m, chk, "rc=%d" % rc, (viol[0][:120] if viol else ""), flush=True)
-        sh("git reset -q --hard HEAD", cwd="/repo")
+        sh("git reset -q --hard HEAD", cwd=REPO)
         d = f"/verif/seeded/{prop}-{m}"
         os.makedirs(d, exist_ok=True)
         shutil.copy(patch, d + "/patch.diff")
